@@ -68,6 +68,7 @@ pub fn cfg_event(sc: &Scenario, t: u64) -> Value {
         "max_samples":sc.max_samples,"max_flows":sc.max_flows,"dist":dist0,"stable":stable,
         "npaths":sc.topo.paths.len(),"eps":sim::ZERO_TIMEOUT_COST_US + 1,"seed":sc.seed.to_string(),
         "fatal_fault": sc.faults.iter().any(|f| f.kind == "other" || f.kind == "perm"),
+        "storm": sc.faults.iter().any(|f| f.from_send > 0),
         "dublin6": sc.strat == "dublin" && sc.fam == 6})
 }
 
